@@ -182,6 +182,17 @@ func sentenceCases(m *ref.Model, l int, base []string, heavy bool, emit func(SCa
 			}
 		}
 	}
+	// a typed token ending in a spacing accent whose NFKD form is SPACE + combining mark (U+00B4 ->
+	// U+0020 U+0301, U+00A8 -> U+0020 U+0308): n-1 typed tokens become n tokens, one of which is the
+	// lone mark — the only unknown token, which the error has to name
+	for _, acc := range [][2]string{{"\u00b4", "\u0301"}, {"\u00a8", "\u0308"}} {
+		for _, p := range []int{0, n / 2, n - 2} {
+			typed := append([]string(nil), base[:n-1]...)
+			typed[p] += acc[0]
+			toks := append(append(append([]string(nil), base[:p+1]...), acc[1]), base[p+1:n-1]...)
+			emit(SCase{S: join(typed), L: l, Tokens: toks, Canon: false, Equiv: true, Class: "spacing-accent"})
+		}
+	}
 	// empty token in place of a word (the separators stay): n tokens after a split on
 	// U+0020 but only n-1 words
 	for p := 0; p < n; p++ {
